@@ -214,6 +214,7 @@ def unlift(E, v):
 def run_engine_case(E, qual, args, kw):
     E.reset([])
     E.unit_name = 'difftest'
+    E.differential_mode = True
     try:
         if isinstance(args, dict):
             ci = E.program.classes[qual]
